@@ -311,9 +311,9 @@ pub struct TrainDesc {
 
 pub fn train_spec(long: bool) -> TrainSpec {
     if long {
-        TrainSpec { n_loaded: 30, n_empty: 30, davis: false, mass_override: None, length_override: None, consist: 3 }
+        TrainSpec { n_loaded: 30, n_empty: 30, davis: false, mass_override: None, length_override: None, consist: 3, cd_vec: false }
     } else {
-        TrainSpec { n_loaded: 10, n_empty: 10, davis: false, mass_override: None, length_override: None, consist: 2 }
+        TrainSpec { n_loaded: 10, n_empty: 10, davis: false, mass_override: None, length_override: None, consist: 2, cd_vec: false }
     }
 }
 
